@@ -29,7 +29,10 @@ adsr (ctor-adsr-duration), value-keyed memo of the array shared by all objects
 (ctor-step-given-loop-node-encoded-absent), _env_at resuming from the last
 stage found (at-differs-when-evaluated-again), the times default assigned without
 wrap_extend (encode-length, encode-raises-IndexError, at-after-end ...;
-family env-defaults)."""
+family env-defaults), the duration setter scaling self.times in place so
+that shallow copies change too (related-bystander-attributes-changed,
+related-bystander-duration, related-bystander-at-* ...; family
+env-related)."""
 
 import copy
 import itertools
@@ -1168,7 +1171,8 @@ def gen_related(p, shard, of):
             idx += 1
             if not mine:
                 continue
-            for pre in itertools.product(p['pre'], repeat=nobj):
+            alpha = p['pre'] if nobj == 2 else p['pre3']
+            for pre in itertools.product(alpha, repeat=nobj):
                 for when in ('early', 'late'):
                     if when == 'late' and not any(pre):
                         continue        # same as early
@@ -1483,14 +1487,14 @@ def families(tier):
                  ['deepcopy']]
         two = [[a, b] for a in names for b in names]
     fams.append(('env-related', 'related', {
-        'n': [2] if q else [1, 2], 'L': [0, 1, 2],
-        'times': [[1, 2]] if q else [0.5, [1, 2]],
-        'curves': [['sin', 'hold']] if q else ['lin', ['sin', 'hold']],
-        'nodes': [[None, None]] if q else [[None, None], [1, 0]],
+        'n': [2], 'L': [0, 2] if q else [0, 1, 2],
+        'times': [[1, 2]], 'curves': [['sin', 'hold']],
+        'nodes': [[None, None]] if q else [[1, 0]],
         'ctors': [['perc', {}], ['adsr', {}],
                   ['pairs', {'pairs': [[0.5, 0], [1, 2], [2, 1]]}]],
         'chains': one + two,
         'pre': ['', 'e', 'a'] if q else ['', 'e', 'a', 'c', 'i'],
+        'pre3': ['', 'e'] if q else ['', 'e', 'a'],
         'ops': [['none'], ['duration', 3]] if q
         else [['none'], ['duration', 3], ['duration', 0.75]]}, 16))
     # 12. another envelope was encoded just before (all ordered pairs of a
@@ -1656,7 +1660,12 @@ def main(ctx):
         '0.5 / 8.5, the offset argument, zero and negative constructor '
         'parameters, an already used object changed by the duration setter '
         'or copied by range/exprange/curverange (encoding and evaluation '
-        'must follow the object\'s own levels/times/curves), every ordered '
+        'must follow the object\'s own levels/times/curves), chains of one '
+        'or two copies (range / exprange / curverange / copy.copy / '
+        'copy.deepcopy; family env-related) with each object used or not '
+        'and then ONE object\'s duration set: the changed object follows its '
+        'own attributes, every other object still encodes and evaluates as '
+        'before and its attributes are unchanged, every ordered '
         'pair of a small set of specifications (second one checked after '
         'the first was encoded), one Env feeding two EnvGen units. '
         'Non-trivial = a time/curve list is wrapped, names and numbers are '
